@@ -218,7 +218,9 @@ static void do_seek(OggVorbis_File *vf,const stream_t *s,rng_t *r,int api,int pr
   }else if(api==4){
     int64_t B=bound_before(s,expect-1);
     if(T>expect+1) res_viol("C08","time-page-seek-lands-after-target","%s tell %lld expected<=%lld",ctx,(long long)T,(long long)expect);
-    else if(T<B) res_viol("C08",bound_is_continued_tail(s,B)?"page-seek-lands-before-previous-page-boundary:boundary-page-holds-only-the-tail-of-a-continued-packet":"time-page-seek-lands-before-previous-page-boundary","%s tell %lld boundary %lld",ctx,(long long)T,(long long)B);
+    else if(T<B){ /* the library's own sample target may be expect-1 .. expect+1: any boundary it may have aimed at and that is a tail-only page explains the fallback */
+      int tail=0; for(int64_t x=expect-1;x<=expect+2 && !tail;x++){ int64_t b=bound_before(s,x); if(b>T && bound_is_continued_tail(s,b)) tail=1; }
+      res_viol("C08",tail?"page-seek-lands-before-previous-page-boundary:boundary-page-holds-only-the-tail-of-a-continued-packet":"time-page-seek-lands-before-previous-page-boundary","%s tell %lld boundary %lld",ctx,(long long)T,(long long)B); }
   }
   if(api==1 && p==L){
     float **pcm; int bs; long g=ov_read_float(vf,&pcm,64,&bs);
